@@ -38,6 +38,8 @@ Reload(t) ==
       IF ~SitesEqual(r.sites, t.asym, t.fmt = "cif") THEN "REJECT Sites" \o Tag(t) ELSE "ok")
 
 Verdict(t) ==
+  \* a first leg (loading the file the crystal comes from) or the writing itself failed: nothing else was observed
+  IF t.write_exc # "" /\ t.fmt \in {"cif", "res", "poscar"} THEN "REJECT WriteRaised" \o Tag(t) ELSE
   IF ~(t.fmt \in {"cif", "res", "poscar"} /\ t.n % 12 = 0 /\ HasIdentity(CodeSet(t.ops))) THEN "OOD shape" ELSE
   IF t.fmt = "poscar" /\ ~OrbitsDisjoint(t.ops, [i \in DOMAIN t.asym |-> [p |-> t.asym[i].p]], t.n) THEN "OOD overlapping-orbits" ELSE
   IF t.write_exc # "" THEN "REJECT WriteRaised" \o Tag(t) ELSE
